@@ -247,7 +247,9 @@ func runChain(sh chainShape, table map[byte]refmodel.Behaviour) (obs chainObs, b
 		r.GET("/inner", mkHandler(101, refmodel.Behaviour{}, &log), mkHandler(100, refmodel.Behaviour{refmodel.SProbe, refmodel.SAbort, refmodel.SProbe}, &log))
 	}
 	if strings.Contains(sh.Hooks, "H") {
-		_ = try(func() { r.ServeHTTP(&hjRec{ResponseRecorder: httptest.NewRecorder()}, httptest.NewRequest("GET", "/hijack-first", nil)) })
+		_ = try(func() {
+			r.ServeHTTP(&hjRec{ResponseRecorder: httptest.NewRecorder()}, httptest.NewRequest("GET", "/hijack-first", nil))
+		})
 		_ = try(func() { r.ServeHTTP(httptest.NewRecorder(), httptest.NewRequest("GET", "/no/such/route/either", nil)) })
 		log = log[:0]
 	}
